@@ -94,6 +94,7 @@ type sysRemote struct {
 	KeepWait      func(ctx context.Context, tag int, cb cbI) (int, error)         // keeps the callable and stays in flight until its gate opens
 	RelayCb       func(ctx context.Context, tag int, kept int) (int, error)       // invokes the callable kept under `kept` (another link's) with THIS request's context
 	EnumPanic     func(ctx context.Context, tag int) error                        // enumerates the remotes and panics inside the enumeration callback
+	IterPreCancelled func(ctx context.Context, tag int, cb cbI) (string, error)   // invokes the callable with a context that is already cancelled, then with a live one
 	Shapes        func(ctx context.Context, tag int, f cbI, done cbE) (string, error) // two callables of different result shapes, the error-only one last
 	EchoLease     func(ctx context.Context, tag int, l Lease) (Lease, error)        // an argument whose type happens to implement context.Context
 	IterNilCtx    func(ctx context.Context, tag int, cb cbI) (string, error)      // invokes the callable from two goroutines at once, both with a nil context
@@ -491,6 +492,14 @@ func (Lease) Done() <-chan struct{}       { return nil }
 func (Lease) Err() error                  { return nil }
 func (Lease) Value(key any) any           { return nil }
 
+func (l *sysLocal) IterPreCancelled(ctx context.Context, tag int, cb cbI) (string, error) {
+	l.inv(ctx, "IterPreCancelled", tag, nil)
+	dctx, dcancel := context.WithCancel(ctx)
+	dcancel()
+	v1, e1 := cb(dctx, 1)
+	v2, e2 := cb(ctx, 2)
+	return fmt.Sprintf("%d/%s;%d/%s", v1, errText(e1), v2, errText(e2)), nil
+}
 func (l *sysLocal) Shapes(ctx context.Context, tag int, f cbI, done cbE) (string, error) {
 	l.inv(ctx, "Shapes", tag, nil)
 	v, err := f(ctx, 1)
